@@ -6,6 +6,7 @@ import OFV.Model.C15
 import OFV.Proofs.C14Swap
 import Mathlib.Algebra.Ring.Rat
 import Mathlib.Tactic.Ring
+import Mathlib.Tactic.Linarith
 import Mathlib.Algebra.BigOperators.Group.List.Basic
 import Mathlib.Analysis.SpecialFunctions.Pow.Real
 
@@ -171,54 +172,6 @@ theorem simulateLoop_spec (perm : List Nat → List Nat) (h : ∀ q, perm (perm 
     exact a
 
 /-! ### sums over the swap network log -/
-
-open OFV.C14 OFV.Model.C14 in
-/-- all unordered pairs `p < q < n` -/
-def allPairs (n : Nat) : List (Nat × Nat) :=
-  (List.range n).flatMap fun q => (List.range q).map fun p => (p, q)
-
-theorem mem_allPairs (n : Nat) (k : Nat × Nat) : k ∈ allPairs n ↔ k.1 < k.2 ∧ k.2 < n := by
-  unfold allPairs
-  simp only [List.mem_flatMap, List.mem_range, List.mem_map]
-  constructor
-  · rintro ⟨q, hq, p, hp, rfl⟩; exact ⟨hp, hq⟩
-  · rintro ⟨h1, h2⟩; exact ⟨k.2, h2, k.1, h1, rfl⟩
-
-theorem allPairs_nodup (n : Nat) : (allPairs n).Nodup := by
-  unfold allPairs
-  rw [List.nodup_flatMap]
-  constructor
-  · intro q _
-    apply List.Nodup.map_on _ List.nodup_range
-    intro a _ b _ hab
-    exact (Prod.mk.injEq _ _ _ _ ▸ hab).1
-  · apply List.Pairwise.imp_of_mem _ List.pairwise_lt_range
-    intro q q' _ _ hlt
-    show List.Disjoint _ _
-    intro k hk hk'
-    obtain ⟨a, _, rfl⟩ := List.mem_map.mp hk
-    obtain ⟨b, _, hb⟩ := List.mem_map.mp hk'
-    have := (Prod.mk.injEq _ _ _ _ ▸ hb).2
-    omega
-
-open OFV.C14 OFV.Model.C14 in
-theorem keys_perm (n : Nat) (offset : Bool) :
-    ((swapNetwork n offset).2.map key).Perm (allPairs n) := by
-  have hoff : offset.toNat ≤ 1 := by cases offset <;> simp
-  rw [swapNetwork_closed]
-  rw [List.perm_ext_iff_of_nodup (keys_nodup n offset.toNat) (allPairs_nodup n)]
-  intro k
-  rw [mem_allPairs]
-  constructor
-  · intro hk
-    obtain ⟨e, he, rfl⟩ := List.mem_map.mp hk
-    obtain ⟨t, ht, m, hm, rfl⟩ := mem_logUpTo n offset.toNat n e he
-    obtain ⟨_, _, h3, h4, h5⟩ := entry_ok n offset.toNat t m ht hm
-    unfold key
-    simp only
-    omega
-  · rintro ⟨h1, h2⟩
-    exact key_mem n offset.toNat k.1 k.2 hoff h1 h2
 
 open OFV.C14 OFV.Model.C14 in
 /-- a symmetric pair function summed over the callback log = summed over all unordered pairs -/
